@@ -314,6 +314,9 @@ func (it *Interp) load(addr *Term, st *State) *Term {
 	case "indexaddr":
 		return Mk("elem", "", addr.Args[0])
 	}
+	if addr.Op == "aload" {
+		return addr // *setting.Load() on an atomic.Pointer[T]: the setting itself
+	}
 	return Mk("deref", "", addr)
 }
 
@@ -712,7 +715,22 @@ func (it *Interp) external(cal *ssa.Function, args []*Term, st *State, pos strin
 		k(st, []*Term{Mk("cmp", ">", Mk("unixnano", "", args[0]), Mk("unixnano", "", args[1]))})
 	case "(time.Time).Before":
 		k(st, []*Term{Mk("cmp", ">", Mk("unixnano", "", args[1]), Mk("unixnano", "", args[0]))})
-	case "(*sync/atomic.Value).Load":
+	default:
+		if it.atomicSetting(id, cal, args, st, pos, k) {
+			return
+		}
+		it.externalUnknown(id, cal, args, st, pos, k)
+	}
+}
+
+// atomicSetting interprets Load / Store on a settings field held in atomic.Value or in a typed atomic.
+func (it *Interp) atomicSetting(id string, cal *ssa.Function, args []*Term, st *State, pos string, k cont) bool {
+	if !strings.HasPrefix(id, "(*sync/atomic.") || len(args) == 0 {
+		return false
+	}
+	meth := id[strings.LastIndex(id, ").")+2:]
+	switch meth {
+	case "Load":
 		st.nCall++
 		f := args[0]
 		name := f.String()
@@ -720,15 +738,28 @@ func (it *Interp) external(cal *ssa.Function, args []*Term, st *State, pos strin
 			name = it.role(f.K)
 		}
 		k(st, []*Term{Leaf("aload", fmt.Sprintf("%s#%d", name, st.nCall))})
-	case "(*sync/atomic.Value).Store":
+		return true
+	case "Store":
 		f := args[0]
 		name := f.String()
 		if f.Op == "fieldaddr" {
 			name = it.role(f.K)
 		}
-		st.Events = append(st.Events, Event{Kind: "settingstore", Name: name, Args: args[1:], Pos: pos})
+		vals := append([]*Term(nil), args[1:]...)
+		for i, v := range vals {
+			if v.Op == "cell" {
+				vals[i] = it.load(v, st) // atomic.Pointer[T].Store(&x): the setting is x
+			}
+		}
+		st.Events = append(st.Events, Event{Kind: "settingstore", Name: name, Args: vals, Pos: pos})
 		k(st, nil)
-	default:
+		return true
+	}
+	return false
+}
+
+func (it *Interp) externalUnknown(id string, cal *ssa.Function, args []*Term, st *State, pos string, k cont) {
+	{
 		st.nCall++
 		st.Events = append(st.Events, Event{Kind: "extcall", N: st.nCall, Name: id, Args: args, Pos: pos})
 		st.Problems = append(st.Problems, "call of unmodelled function "+id+" at "+pos)
